@@ -91,6 +91,8 @@ fn common_patterns(cfg: &Cfg) -> Vec<String> {
         r"(?x) a b # c", r"(?i)ab", r"(?i:a)b", r"(?s).", r"(?m)^a$", r"(?U)a+", r"(?U)a+?", r"(?P<x>a)(?P<y>b)?", r"(?<x>a)|(?<y>b)", r"\bab\b",
         r"\b\w+\b", r"(\w+)\s(\w+)", r"a{2,3}", r"a{2,3}?", r"(?i)É", r"(?i)[a-c]", r"(?i)[^a]", r"[^\W\d]", r"\w\b|\B.", r"(?m:^)\b", r"\b(?m:$)",
         r"(a|ab)(c|bcd)(d*)", r"(a*)(a|b)*\b", r"(a+)(b+)?\B", r"x*\b", r"\Bx*", r"(?:\b|a)+?b", r"(\b)a", r"(?:a\b)+", r"(?i)(?-i:a)b\b",
+        // a loop the VM drives (word boundary in the body) around a delegated piece whose group is in one alternative only
+        r"(?:(?:(a)|b)\b,?)+", r"(?:(?:(a)|(b))\b-?)+", r"(?:(?:a|(b))\B)+", r"(?:\b(?:(a)|b) ?)*", r"(?:(?:(a)|b|(c))\b ?)+?", r"(?:([ab])?\b.)+",
     ] {
         push(p.to_string(), &mut out);
     }
@@ -148,6 +150,32 @@ pub fn run_c04(cfg: &Cfg) {
     }
     let templates = ["x", "<$0>", "[$1]", "${1}a$2", "$n-$x", "$$"];
     let opts = Opts::default();
+    // the builder option against the regex crate's builder option (inline negations inside): both paths
+    if cfg.shard == 0 {
+        for p in [
+            r"foo(?-i:bar)", r"(?-i)abc", r"(?-i:a)b", r"a(?-i:[b-c]+)d", r"\b(?-i:[a-c]+)\b", r"(?-i:a)\bb?", r"(?:(?-i:a)|b)+\b", r"(?-i:é)É", r"(a)(?-i:(b))\B?",
+            r"ab", r"\bab\b", r"[a-c]+\b",
+        ] {
+            let rx = regex::RegexBuilder::new(p).case_insensitive(true).build();
+            let fx = RegexBuilder::new(p).case_insensitive(true).build();
+            if let (Ok(rx), Ok(fx)) = (rx, fx) {
+                for t in ["fooBAR FOObar foobar FOOBAR", "ABC abc Abc cab", "ab AB aB Ab", "aBBCd ABBCD abcd", "éÉ ÉÉ éé", "A b", "aB", "Ab"] {
+                    s.count("builder_casei_vs_regex_crate");
+                    let a: Vec<Option<(usize, usize)>> = fx.find_iter(t).take(t.len() + 3).map(|m| m.ok().map(|m| (m.start(), m.end()))).collect();
+                    let b: Vec<Option<(usize, usize)>> = rx.find_iter(t).map(|m| Some((m.start(), m.end()))).collect();
+                    let ca = fx.captures(t).ok().flatten().map(|c| fx_caps(&c)).unwrap_or("none".into());
+                    let cb = rx.captures(t).map(|c| rx_caps(&c)).unwrap_or("none".into());
+                    if a != b || ca != cb {
+                        s.violation(
+                            "C04",
+                            "differential",
+                            &[("pattern", p.to_string()), ("text", t.to_string()), ("detail", format!("RegexBuilder::case_insensitive(true): find_iter {:?} vs regex crate {:?}; captures {} vs {}", a, b, ca, cb))],
+                        );
+                    }
+                }
+            }
+        }
+    }
     for (i, p) in pats.iter().enumerate() {
         if i % cfg.nshards != cfg.shard {
             continue;
